@@ -130,4 +130,157 @@ theorem foldl_no_rename_final (steps : List AStep) (d : ADir) (hno : ∀ st ∈ 
     | closeFile => rfl
     | rename => exact absurd rfl this
 
+/-! ### Two concurrent atomic puts -/
+
+theorem joinContent_append (a b : List Content) : joinContent (a ++ b) = joinContent a ++ joinContent b := by
+  induction a with
+  | nil => simp [joinContent]
+  | cons c rest ih => simp [joinContent, ih, String.append_assoc]
+
+/-- What one writer's remaining program `r` and temp file `t` look like while it puts `cs`. -/
+def WInv (cs : List Content) (r : List AStep) (t : Option Content) : Prop :=
+  (r = atomicSteps cs ∧ t = none) ∨
+  (∃ pre suf, cs = pre ++ suf ∧ r = suf.map AStep.write ++ [.closeFile, .rename] ∧ t = some (joinContent pre)) ∨
+  (r = [.rename] ∧ t = some (joinContent cs)) ∨
+  (r = [] ∧ t = none)
+
+/-- the writer's own step on its own temp file -/
+def ownStep (t : Option Content) : AStep → Option Content
+  | .createTemp => some ""
+  | .write c => t.map (· ++ c)
+  | .closeFile => t
+  | .rename => none
+
+theorem winv_start (cs : List Content) : WInv cs (atomicSteps cs) none := Or.inl ⟨rfl, rfl⟩
+
+theorem winv_step (cs : List Content) (x : AStep) (r : List AStep) (t : Option Content)
+    (h : WInv cs (x :: r) t) :
+    WInv cs r (ownStep t x) ∧ (x = .rename → t = some (joinContent cs)) := by
+  rcases h with ⟨hr, ht⟩ | ⟨pre, suf, hcs, hr, ht⟩ | ⟨hr, ht⟩ | ⟨hr, _⟩
+  · -- not started: x = createTemp
+    unfold atomicSteps at hr
+    simp only [List.cons_append, List.cons.injEq] at hr
+    obtain ⟨hx, hr⟩ := hr
+    subst hx
+    refine ⟨Or.inr (Or.inl ⟨[], cs, by simp, ?_, by simp [ownStep, joinContent]⟩), by intro h; cases h⟩
+    rw [hr]; simp
+  · cases suf with
+    | nil =>
+      simp only [List.map_nil, List.nil_append, List.cons.injEq] at hr
+      obtain ⟨hx, hr⟩ := hr
+      subst hx
+      refine ⟨Or.inr (Or.inr (Or.inl ⟨hr, ?_⟩)), by intro h; cases h⟩
+      simp only [ownStep]; rw [ht, hcs]; simp
+    | cons c suf =>
+      simp only [List.map_cons, List.cons_append, List.cons.injEq] at hr
+      obtain ⟨hx, hr⟩ := hr
+      subst hx
+      refine ⟨Or.inr (Or.inl ⟨pre ++ [c], suf, by simp [hcs], hr, ?_⟩), by intro h; cases h⟩
+      simp only [ownStep]; rw [ht]; simp [joinContent_append, joinContent]
+  · simp only [List.cons.injEq] at hr
+    obtain ⟨hx, hr⟩ := hr
+    subst hx
+    exact ⟨Or.inr (Or.inr (Or.inr ⟨hr, rfl⟩)), fun _ => ht⟩
+  · cases hr
+
+def Good (old : Option Content) (ca cb : List Content) (f : Option Content) : Prop :=
+  f = old ∨ f = some (joinContent ca) ∨ f = some (joinContent cb)
+
+theorem cStep_a (d : CDir) (x : AStep) :
+    (cStep false d (Who.a, x)).ta = ownStep d.ta x ∧ (cStep false d (Who.a, x)).tb = d.tb ∧
+    ((cStep false d (Who.a, x)).final = d.final ∨ (x = .rename ∧ (cStep false d (Who.a, x)).final = d.ta)) := by
+  cases x with
+  | createTemp => simp [cStep, ownStep]
+  | write c => simp [cStep, ownStep]
+  | closeFile => simp [cStep, ownStep]
+  | rename =>
+    cases h : d.ta with
+    | none => simp [cStep, ownStep, h]
+    | some t => simp [cStep, ownStep, h]
+
+theorem cStep_b (d : CDir) (x : AStep) :
+    (cStep false d (Who.b, x)).tb = ownStep d.tb x ∧ (cStep false d (Who.b, x)).ta = d.ta ∧
+    ((cStep false d (Who.b, x)).final = d.final ∨ (x = .rename ∧ (cStep false d (Who.b, x)).final = d.tb)) := by
+  cases x with
+  | createTemp => simp [cStep, ownStep]
+  | write c => simp [cStep, ownStep]
+  | closeFile => simp [cStep, ownStep]
+  | rename =>
+    cases h : d.tb with
+    | none => simp [cStep, ownStep, h]
+    | some t => simp [cStep, ownStep, h]
+
+theorem good_after_a (old : Option Content) (ca cb : List Content) (d : CDir) (x : AStep) (r : List AStep)
+    (ha : WInv ca (x :: r) d.ta) (hg : Good old ca cb d.final) :
+    WInv ca r (cStep false d (Who.a, x)).ta ∧ (cStep false d (Who.a, x)).tb = d.tb ∧
+      Good old ca cb (cStep false d (Who.a, x)).final := by
+  obtain ⟨h1, h2, h3⟩ := cStep_a d x
+  obtain ⟨hw, hren⟩ := winv_step ca x r d.ta ha
+  refine ⟨by rw [h1]; exact hw, h2, ?_⟩
+  rcases h3 with h | ⟨hx, h⟩
+  · rw [h]; exact hg
+  · rw [h, hren hx]; exact Or.inr (Or.inl rfl)
+
+theorem good_after_b (old : Option Content) (ca cb : List Content) (d : CDir) (x : AStep) (r : List AStep)
+    (hb : WInv cb (x :: r) d.tb) (hg : Good old ca cb d.final) :
+    WInv cb r (cStep false d (Who.b, x)).tb ∧ (cStep false d (Who.b, x)).ta = d.ta ∧
+      Good old ca cb (cStep false d (Who.b, x)).final := by
+  obtain ⟨h1, h2, h3⟩ := cStep_b d x
+  obtain ⟨hw, hren⟩ := winv_step cb x r d.tb hb
+  refine ⟨by rw [h1]; exact hw, h2, ?_⟩
+  rcases h3 with h | ⟨hx, h⟩
+  · rw [h]; exact hg
+  · rw [h, hren hx]; exact Or.inr (Or.inr rfl)
+
+theorem merge2_good (old : Option Content) (ca cb : List Content) :
+    ∀ (n : Nat) (sched : List Bool) (ra rb : List AStep) (d : CDir), ra.length + rb.length ≤ n →
+      WInv ca ra d.ta → WInv cb rb d.tb → Good old ca cb d.final →
+      ∀ j, Good old ca cb (((merge2 sched ra rb).take j).foldl (cStep false) d).final := by
+  intro n
+  induction n with
+  | zero =>
+    intro sched ra rb d hn _ _ hg j
+    have h1 : ra = [] := List.eq_nil_of_length_eq_zero (by omega)
+    have h2 : rb = [] := List.eq_nil_of_length_eq_zero (by omega)
+    subst h1; subst h2
+    simp [merge2]; exact hg
+  | succ n ih =>
+    intro sched ra rb d hn ha hb hg j
+    have stepA : ∀ (s' : List Bool) (x : AStep) (xs : List AStep) (rb' : List AStep), ra = x :: xs → rb' = rb →
+        Good old ca cb ((((Who.a, x) :: merge2 s' xs rb').take j).foldl (cStep false) d).final := by
+      intro s' x xs rb' hra hrb
+      subst hra; subst hrb
+      cases j with
+      | zero => simpa using hg
+      | succ j =>
+        simp only [List.take_succ_cons, List.foldl_cons]
+        obtain ⟨hw, htb, hg'⟩ := good_after_a old ca cb d x xs ha hg
+        exact ih s' xs rb' _ (by simp at hn; omega) hw (by rw [htb]; exact hb) hg' j
+    have stepB : ∀ (s' : List Bool) (y : AStep) (ys : List AStep) (ra' : List AStep), rb = y :: ys → ra' = ra →
+        Good old ca cb ((((Who.b, y) :: merge2 s' ra' ys).take j).foldl (cStep false) d).final := by
+      intro s' y ys ra' hrb hra
+      subst hrb; subst hra
+      cases j with
+      | zero => simpa using hg
+      | succ j =>
+        simp only [List.take_succ_cons, List.foldl_cons]
+        obtain ⟨hw, hta, hg'⟩ := good_after_b old ca cb d y ys hb hg
+        exact ih s' ra' ys _ (by simp at hn; omega) (by rw [hta]; exact ha) hw hg' j
+    cases ra with
+    | nil =>
+      cases rb with
+      | nil => simp [merge2]; exact hg
+      | cons y ys => rw [merge2]; exact stepB _ y ys [] rfl rfl
+    | cons x xs =>
+      cases rb with
+      | nil => rw [merge2]; exact stepA _ x xs [] rfl rfl
+      | cons y ys =>
+        cases sched with
+        | nil => rw [merge2]; exact stepA _ x xs _ rfl rfl
+        | cons b s =>
+          cases b with
+          | true => rw [merge2]; exact stepA _ x xs _ rfl rfl
+          | false => rw [merge2]; exact stepB _ y ys _ rfl rfl
+
+
 end BufProofs.C15
